@@ -41,8 +41,16 @@ func H_C06_qual() {
 	name := nondetString("name")
 	mode := nondetChoice("mode", 3)
 	switch mode {
-	case 0: // the local package itself
+	case 0: // the local package itself, even when hints name it
 		verifAssume(p == local)
+		switch nondetChoice("hint_on_local", 4) {
+		case 1:
+			f.ImportName(p, "localname")
+		case 2:
+			f.ImportAlias(p, "localalias")
+		case 3:
+			f.ImportAlias(p, ".")
+		}
 	case 1: // declared a dot import
 		verifAssume(p != local)
 		f.ImportAlias(p, ".")
